@@ -179,6 +179,15 @@ ReqShortestReversal ==
             kk == CHOOSE k2 \in 1..Len(atoms) : atoms[k2].a = i /\ SameClass(cfg.S, cr.D, atoms[k2].u, back)
         IN  sv[<<j, kk>>] = {VScaleS(-1, y) : y \in sv[p]}
 
+(* the supercell lattice is invariant under the point group of the crystal:   *)
+(* only then do supercell force constants (sums over periodic images) have    *)
+(* the symmetry of the primitive cell, which phonopy assumes when it          *)
+(* symmetrises group velocities with the primitive cell's point group         *)
+PreSupercellKeepsPointGroup ==
+  pc = "built" =>
+     \A p \in AutFast(cr) : \A k \in I3 :
+        SameClass(cfg.S, 1, MatVecS(p[1], Col3(cfg.S, k)), Zero3)
+
 (* hypotheses on the tensors handed in *)
 PreTensorsSymmetric ==
   (pc = "built" /\ cfg.nac) =>
